@@ -761,26 +761,36 @@ class VizierServicer(vizier_service_pb2_grpc.VizierServiceServicer):
             f'Misconfigured automated_stopping_spec: {study.study_spec}'
         )
 
-      # Send request to Pythia.
-      temp_pythia_service = self._select_pythia_service(
-          study_config.pythia_endpoint
-      )
-      early_stopping_decisions_proto = temp_pythia_service.EarlyStop(
-          early_stop_request_proto
-      )
-      early_stopping_decisions = svz.EarlyStopConverter.from_decisions_proto(
-          early_stopping_decisions_proto
-      )
-      # Update metadata from result.
-      self.datastore.update_metadata(
-          study_name,
-          svz.metadata_util.make_key_value_list(
-              early_stopping_decisions.metadata.on_study
-          ),
-          svz.metadata_util.trial_metadata_to_update_list(
-              early_stopping_decisions.metadata.on_trials
-          ),
-      )
+      try:
+        # Send request to Pythia.
+        temp_pythia_service = self._select_pythia_service(
+            study_config.pythia_endpoint
+        )
+        early_stopping_decisions_proto = temp_pythia_service.EarlyStop(
+            early_stop_request_proto
+        )
+        early_stopping_decisions = svz.EarlyStopConverter.from_decisions_proto(
+            early_stopping_decisions_proto
+        )
+        # Update metadata from result.
+        self.datastore.update_metadata(
+            study_name,
+            svz.metadata_util.make_key_value_list(
+                early_stopping_decisions.metadata.on_study
+            ),
+            svz.metadata_util.trial_metadata_to_update_list(
+                early_stopping_decisions.metadata.on_trials
+            ),
+        )
+      except Exception as e:  # pylint: disable=broad-except
+        # Don't leave the operation ACTIVE: an ACTIVE operation answers every
+        # later check for this trial without ever reaching Pythia again.
+        output_operation.status = (
+            vizier_oss_pb2.EarlyStoppingOperation.Status.FAILED
+        )
+        output_operation.failure_message = str(e)
+        self.datastore.update_early_stopping_operation(output_operation)
+        raise
 
       # Pythia does not guarantee that the output_operation's id
       # will be in the decisions.
